@@ -155,4 +155,165 @@ theorem v_run_eq (tr : List (XBits × ProcIn)) (r : ProcRegs) : vRun tr r = svRu
 theorem synth_run_eq (tr : List (XBits × ProcIn)) (r : ProcRegs) : synthRun tr r = vRun tr r :=
   runMachine_congr _ _ _ _ synth_out_eq synth_next_eq tr r
 
+/-! ### The whole design: `hex.sv` + `memory.sv` with processor.v substituted for processor.sv
+
+  `Gen.V.Hex` / `Gen.SynthV.Hex` are generated from hex.sv + processor.v + memory.sv flattened, `Gen.Sv.Hex`
+  from hex.sv + processor.sv + memory.sv.  The flattened designs decompose (`rfl`) into their
+  processor fed by their memory; the processors agree (`v_out_eq`, `v_next_eq`), the data address
+  does not depend on the read data, and memory.sv is the same file. -/
+
+/-- Register and memory state common to the flattened designs. -/
+structure HexRegs where
+  pc : BitVec 21
+  a : BitVec 32
+  b : BitVec 32
+  o : BitVec 32
+  mem : BitVec 19 → BitVec 32
+
+structure HexIn where
+  i_clk : BitVec 1
+  i_rst : BitVec 1
+
+structure HexOut where
+  o_syscall_valid : BitVec 1
+  o_syscall : BitVec 2
+  deriving DecidableEq
+
+namespace SvH
+def regs (r : HexRegs) : Sv.Hex.Regs := ⟨r.pc, r.a, r.b, r.o, r.mem⟩
+def inp (i : HexIn) : Sv.Hex.In := ⟨i.i_clk, i.i_rst⟩
+def wires (i : HexIn) (r : HexRegs) := Sv.Hex.comb ⟨⟩ (inp i) (regs r)
+def out (i : HexIn) (r : HexRegs) : HexOut := ⟨(wires i r).o_syscall_valid, (wires i r).o_syscall⟩
+def next (i : HexIn) (r : HexRegs) : HexRegs :=
+  let n := Sv.Hex.ff ⟨⟩ (inp i) (regs r)
+  ⟨n.u_processor__pc_q, n.u_processor__areg_q, n.u_processor__breg_q, n.u_processor__oreg_q, n.u_memory__memory_q⟩
+end SvH
+
+namespace VH
+def xs (x : XBits) : V.Hex.X := ⟨x.x0, x.x1, x.x2, x.x3, x.x4, x.x5, x.x6, x.x7⟩
+def regs (r : HexRegs) : V.Hex.Regs := ⟨r.pc, r.a, r.b, r.o, r.mem⟩
+def inp (i : HexIn) : V.Hex.In := ⟨i.i_clk, i.i_rst⟩
+def wires (x : XBits) (i : HexIn) (r : HexRegs) := V.Hex.comb (xs x) (inp i) (regs r)
+def out (x : XBits) (i : HexIn) (r : HexRegs) : HexOut := ⟨(wires x i r).o_syscall_valid, (wires x i r).o_syscall⟩
+def next (x : XBits) (i : HexIn) (r : HexRegs) : HexRegs :=
+  let n := V.Hex.ff (xs x) (inp i) (regs r)
+  ⟨n.u_processor__pc_q, n.u_processor__areg_q, n.u_processor__breg_q, n.u_processor__oreg_q, n.u_memory__memory_q⟩
+end VH
+
+def pregs (r : HexRegs) : ProcRegs := ⟨r.pc, r.a, r.b, r.o⟩
+
+/-- what the flattened designs feed their processor with -/
+theorem sv_flat_out (i : HexIn) (r : HexRegs) :
+    let w := SvH.wires i r
+    (⟨w.req_f_valid, w.req_f_addr, w.req_d_valid, w.req_d_we, w.req_d_addr, w.req_d_data, w.o_syscall_valid, w.o_syscall⟩ : ProcOut)
+      = SvP.out ⟨i.i_rst, i.i_clk, w.res_f_data, w.res_d_data⟩ (pregs r) := rfl
+
+theorem v_flat_out (x : XBits) (i : HexIn) (r : HexRegs) :
+    let w := VH.wires x i r
+    (⟨w.req_f_valid, w.req_f_addr, w.req_d_valid, w.req_d_we, w.req_d_addr, w.req_d_data, w.o_syscall_valid, w.o_syscall⟩ : ProcOut)
+      = VP.out x ⟨i.i_rst, i.i_clk, w.res_f_data, w.res_d_data⟩ (pregs r) := rfl
+
+theorem fetch_same (x : XBits) (i : HexIn) (r : HexRegs) :
+    (VH.wires x i r).res_f_data = (SvH.wires i r).res_f_data := rfl
+
+theorem rd_sv (i : HexIn) (r : HexRegs) : (SvH.wires i r).res_d_data = r.mem (SvH.wires i r).req_d_addr := rfl
+theorem rd_v (x : XBits) (i : HexIn) (r : HexRegs) : (VH.wires x i r).res_d_data = r.mem (VH.wires x i r).req_d_addr := rfl
+
+/-- The data address does not depend on the read data (no combinational loop through memory). -/
+theorem sv_addr_indep (rst clk : BitVec 1) (f : BitVec 8) (d d' : BitVec 32) (p : ProcRegs) :
+    (SvP.out ⟨rst, clk, f, d⟩ p).o_d_addr = (SvP.out ⟨rst, clk, f, d'⟩ p).o_d_addr := rfl
+
+theorem daddr_same (x : XBits) (i : HexIn) (r : HexRegs) :
+    (VH.wires x i r).req_d_addr = (SvH.wires i r).req_d_addr := by
+  have hv := congrArg ProcOut.o_d_addr (v_flat_out x i r)
+  have hs := congrArg ProcOut.o_d_addr (sv_flat_out i r)
+  simp only at hv hs
+  rw [hv, hs, v_out_eq, fetch_same]
+  exact sv_addr_indep _ _ _ _ _ _
+
+theorem rd_same (x : XBits) (i : HexIn) (r : HexRegs) :
+    (VH.wires x i r).res_d_data = (SvH.wires i r).res_d_data := by
+  rw [rd_v, rd_sv, daddr_same]
+
+theorem flat_out_same (x : XBits) (i : HexIn) (r : HexRegs) :
+    let wv := VH.wires x i r
+    let ws := SvH.wires i r
+    (⟨wv.req_f_valid, wv.req_f_addr, wv.req_d_valid, wv.req_d_we, wv.req_d_addr, wv.req_d_data, wv.o_syscall_valid, wv.o_syscall⟩ : ProcOut)
+    = ⟨ws.req_f_valid, ws.req_f_addr, ws.req_d_valid, ws.req_d_we, ws.req_d_addr, ws.req_d_data, ws.o_syscall_valid, ws.o_syscall⟩ := by
+  intro wv ws
+  have hv := v_flat_out x i r
+  have hs := sv_flat_out i r
+  simp only at hv hs
+  rw [hv, hs, v_out_eq, fetch_same, rd_same]
+
+theorem v_next_regs (x : XBits) (i : HexIn) (r : HexRegs) :
+    pregs (VH.next x i r) = VP.next x ⟨i.i_rst, i.i_clk, (VH.wires x i r).res_f_data, (VH.wires x i r).res_d_data⟩ (pregs r) := rfl
+theorem sv_next_regs (i : HexIn) (r : HexRegs) :
+    pregs (SvH.next i r) = SvP.next ⟨i.i_rst, i.i_clk, (SvH.wires i r).res_f_data, (SvH.wires i r).res_d_data⟩ (pregs r) := rfl
+
+theorem next_regs_same (x : XBits) (i : HexIn) (r : HexRegs) : pregs (VH.next x i r) = pregs (SvH.next i r) := by
+  rw [v_next_regs, sv_next_regs, v_next_eq, fetch_same, rd_same]
+
+/-- memory.sv is the same file in both designs -/
+theorem v_next_mem (x : XBits) (i : HexIn) (r : HexRegs) :
+    (VH.next x i r).mem =
+      (Sv.Memory.ff ⟨⟩ ⟨i.i_rst, i.i_clk, (VH.wires x i r).req_f_valid, (VH.wires x i r).req_f_addr, (VH.wires x i r).req_d_valid,
+        (VH.wires x i r).req_d_we, (VH.wires x i r).req_d_addr, (VH.wires x i r).req_d_data⟩ ⟨r.mem⟩).memory_q := rfl
+theorem sv_next_mem (i : HexIn) (r : HexRegs) :
+    (SvH.next i r).mem =
+      (Sv.Memory.ff ⟨⟩ ⟨i.i_rst, i.i_clk, (SvH.wires i r).req_f_valid, (SvH.wires i r).req_f_addr, (SvH.wires i r).req_d_valid,
+        (SvH.wires i r).req_d_we, (SvH.wires i r).req_d_addr, (SvH.wires i r).req_d_data⟩ ⟨r.mem⟩).memory_q := rfl
+
+theorem next_mem_same (x : XBits) (i : HexIn) (r : HexRegs) : (VH.next x i r).mem = (SvH.next i r).mem := by
+  have h := flat_out_same x i r
+  simp only [ProcOut.mk.injEq] at h
+  obtain ⟨h1, h2, h3, h4, h5, h6, _, _⟩ := h
+  rw [v_next_mem, sv_next_mem, h1, h2, h3, h4, h5, h6]
+
+theorem hex_next_same (x : XBits) (i : HexIn) (r : HexRegs) : VH.next x i r = SvH.next i r := by
+  have h1 := next_regs_same x i r
+  have h2 := next_mem_same x i r
+  cases hv : VH.next x i r
+  cases hs : SvH.next i r
+  rw [hv, hs] at h1 h2
+  simp only [pregs, ProcRegs.mk.injEq] at h1 h2
+  obtain ⟨a, b, c, d⟩ := h1
+  simp only [a, b, c, d, h2]
+
+theorem hex_out_same (x : XBits) (i : HexIn) (r : HexRegs) : VH.out x i r = SvH.out i r := by
+  have h := flat_out_same x i r
+  simp only [ProcOut.mk.injEq] at h
+  obtain ⟨_, _, _, _, _, _, h7, h8⟩ := h
+  unfold VH.out SvH.out
+  rw [h7, h8]
+
+namespace SynthVH
+def xs (x : XBits) : SynthV.Hex.X := ⟨x.x0, x.x1, x.x2, x.x3, x.x4, x.x5, x.x6, x.x7⟩
+def regs (r : HexRegs) : SynthV.Hex.Regs := ⟨r.pc, r.a, r.b, r.o, r.mem⟩
+def inp (i : HexIn) : SynthV.Hex.In := ⟨i.i_clk, i.i_rst⟩
+def wires (x : XBits) (i : HexIn) (r : HexRegs) := SynthV.Hex.comb (xs x) (inp i) (regs r)
+def out (x : XBits) (i : HexIn) (r : HexRegs) : HexOut := ⟨(wires x i r).o_syscall_valid, (wires x i r).o_syscall⟩
+def next (x : XBits) (i : HexIn) (r : HexRegs) : HexRegs :=
+  let n := SynthV.Hex.ff (xs x) (inp i) (regs r)
+  ⟨n.u_processor__pc_q, n.u_processor__areg_q, n.u_processor__breg_q, n.u_processor__oreg_q, n.u_memory__memory_q⟩
+end SynthVH
+
+/-- The whole design with synth/processor.v = the whole design with verilog/processor.v
+    (definitional while the two copies translate to the same term). -/
+theorem synth_hex_next_same (x : XBits) (i : HexIn) (r : HexRegs) : SynthVH.next x i r = VH.next x i r := rfl
+theorem synth_hex_out_same (x : XBits) (i : HexIn) (r : HexRegs) : SynthVH.out x i r = VH.out x i r := rfl
+
+/-- `n` events of a whole design. -/
+def iterHex (next : XBits → HexIn → HexRegs → HexRegs) : List (XBits × HexIn) → HexRegs → HexRegs
+  | [], r => r
+  | (x, i) :: rest, r => iterHex next rest (next x i r)
+
+theorem iterHex_congr (n₁ n₂ : XBits → HexIn → HexRegs → HexRegs) (h : ∀ x i r, n₁ x i r = n₂ x i r) :
+    ∀ tr r, iterHex n₁ tr r = iterHex n₂ tr r := by
+  intro tr
+  induction tr with
+  | nil => intro r; rfl
+  | cons hd t ih => intro r; rcases hd with ⟨x, i⟩; simp only [iterHex, h, ih]
+
+
 end Hex.Rtl
